@@ -134,8 +134,11 @@ def cpu_has_avx2():
 
 def harness(args, binary=None, timeout=1800, check=True):
     """Runs the harness; stderr (vibrato prints progress there) is discarded."""
-    p = subprocess.run([binary or BIN] + [str(a) for a in args], stdout=subprocess.PIPE,
-                       stderr=subprocess.DEVNULL, text=True, timeout=timeout)
+    try:
+        p = subprocess.run([binary or BIN] + [str(a) for a in args], stdout=subprocess.PIPE,
+                           stderr=subprocess.DEVNULL, text=True, timeout=timeout)
+    except subprocess.TimeoutExpired:
+        raise ToolError("harness %s did not finish within %d s" % (args[0], timeout))
     if check and p.returncode != 0:
         raise ToolError("harness %s exited %d: %s" % (args[0], p.returncode, p.stdout[-2000:]))
     return p
@@ -270,7 +273,7 @@ def validate_trace(name, spec, base_cfg, trace_path, consts=None, timeout=1500):
     n_events = sum(1 for _ in open(trace_path))
     res = {"accepted": False, "n_events": n_events, "rejected_line": None, "failed_clauses": [],
            "secs": round(secs, 1), "states": parse_mc(out)["distinct"]}
-    for m in re.finditer(r'<<"FAILED-CLAUSE", "(\w+)", "([^"]*)", (\d+)>>', out):
+    for m in re.finditer(r'<<\s*"FAILED-CLAUSE",\s*"(\w+)",\s*"([^"]*)",\s*(\d+)\s*>>', out):
         res["failed_clauses"].append((m.group(1), m.group(2), int(m.group(3))))
     m = re.search(r'<<"REJECTED", (\d+),', out)
     if m:
